@@ -74,7 +74,7 @@ func oracleC10(c *CaseBytes) *Failure {
 		return failf("C10/"+c.Type+"/alloc", "Decode of %d input bytes %s allocated %d bytes (bound %d = 32 KiB + 160 x input length)", len(c.W), hexClip(c.W), delta, bound)
 	}
 	if len(c.Twin) > 0 {
-		// metamorphic: W differs from Twin only in overstating a count/length. Claiming more must not cost memory
+		// metamorphic (only for a list that ends the message): W differs from Twin only in overstating the count. Claiming more must not cost memory
 		// beyond what the bytes present justify: alloc(W) <= alloc(Twin) + 32 KiB + 24 x len(W)
 		// (24 x len covers a result slice pre-sized by the number of bytes still unread)
 		obj2 := regByName[c.Type].New()
@@ -174,11 +174,7 @@ func genHostile(rt *rapid.T, tn string, maxSize int, hint int) (*CaseBytes, []st
 		v, _ := GenValue(rt, tn, o)
 		r := Render(v, &RenderOpts{Spans: true})
 		w, kind, over := mutateHostile(rt, r, ts.LE, hint)
-		cb := &CaseBytes{Type: tn, W: w}
-		if kind == "prefix" && over && len(w) == len(r.Bytes) {
-			cb.Twin = r.Bytes
-		}
-		return cb, []string{"mutated:" + kind}, over
+		return &CaseBytes{Type: tn, W: w}, []string{"mutated:" + kind}, over
 	}
 }
 
@@ -238,6 +234,10 @@ func runHostile(t *testing.T, prop, check string, oracle func(*CaseBytes) *Failu
 				if uint64(n) >= NMask(f.Count) {
 					continue
 				}
+				// the relation is only sound when nothing follows the list: otherwise an overstated count makes the
+				// decoder read the FOLLOWING bytes as elements, whose legitimate cost per byte may be far higher than
+				// what those bytes cost in the truthful message
+				lastField := fi == len(ts.Fields)-1
 				v := Skeleton(tn, 0)
 				x := &v.F[fi]
 				switch f.Kind {
@@ -269,7 +269,10 @@ func runHostile(t *testing.T, prop, check string, oracle func(*CaseBytes) *Failu
 						}
 						w := append([]byte{}, r.Bytes...)
 						copy(w[sp.Off:], putUint(nil, nv, sp.Len, ts.LE))
-						c := &CaseBytes{Type: tn, W: w, Twin: r.Bytes}
+						c := &CaseBytes{Type: tn, W: w}
+						if lastField {
+							c.Twin = r.Bytes
+						}
 						hostileRecord(prop, c, []string{"enumerated-big-list-overstated"}, true)
 						if !Direct(t, prop, check, fmt.Sprintf("biglist/%s.%s/%d", tn, f.Go, nv), c, oracle) {
 							break
